@@ -226,7 +226,7 @@ func cellFromCellBlock(b []byte) (*pb.Cell, uint32, error) {
 		return nil, 0, fmt.Errorf(
 			"buffer is too small for row of length %d: got %d", keyLen, len(b))
 	}
-	key := b[:keyLen]
+	key := b[:keyLen:keyLen]
 	b = b[keyLen:]
 
 	familyLen := b[0]
@@ -236,7 +236,7 @@ func cellFromCellBlock(b []byte) (*pb.Cell, uint32, error) {
 		return nil, 0, fmt.Errorf(
 			"buffer is too small for family of length %d: got %d", familyLen, len(b))
 	}
-	family := b[:familyLen]
+	family := b[:familyLen:familyLen]
 	b = b[familyLen:]
 
 	if uint64(rowKeyLen) < 2+uint64(keyLen)+1+uint64(familyLen)+8+1 {
@@ -256,7 +256,7 @@ func cellFromCellBlock(b []byte) (*pb.Cell, uint32, error) {
 			"buffer is too small: expected %d, got %d",
 			uint64(qualifierLen)+8+1+uint64(valueLen), len(b))
 	}
-	qualifier := b[:qualifierLen]
+	qualifier := b[:qualifierLen:qualifierLen]
 	b = b[qualifierLen:]
 
 	timestamp := binary.BigEndian.Uint64(b[:8])
@@ -265,7 +265,10 @@ func cellFromCellBlock(b []byte) (*pb.Cell, uint32, error) {
 	cellType := b[0]
 	b = b[1:]
 
-	value := b[:valueLen]
+	// (full slice expressions: the cells of a cellblock - possibly of
+	// different callers - share one buffer, a caller appending to a
+	// field must not write into what follows it)
+	value := b[:valueLen:valueLen]
 
 	return &pb.Cell{
 		Row:       key,
